@@ -61,7 +61,7 @@ const histModes = "HENSGXC"
 // symlink that another required symlink reaches first (map iteration order!) loses its own targets (fix-c17-cov/1.diff).
 // emitSymlinkWhiteout: generate entry kind W (a whiteout written as a symlink entry). Off until the repair is in /repo:
 // resolveSymlink follows such a node before anybody looks at isWhiteout (fix-imgb-j/2.diff).
-const emitSymlinkWhiteout = false
+const emitSymlinkWhiteout = true
 
 const emitRequirer = true
 
